@@ -339,6 +339,23 @@ Proof.
   apply transact_sref; [exact El|apply frame_push_patches].
 Qed.
 
+Lemma run_squash_sref : forall w r nm meta msg,
+  stack_ref_has_parent w -> stack_ref_has_parent (fst (run_squash w r nm meta msg)).
+Proof.
+  intros w r nm meta msg H. unfold run_squash.
+  destruct (parse_ranges r) as [prs|]; [|exact H].
+  destruct (from_str nm) as [newn|]; [|exact H].
+  destruct (open_stack PAllow w) as [op|] eqn:Eo; [apply (fun E => open_sref _ _ _ E H) in Eo|exact H].
+  destruct (w_unmerged (op_world op)); [sr|].
+  destruct (negb (head_top_ok op)); [sr|].
+  match goal with |- stack_ref_has_parent (fst (rres_bind _ ?r _)) =>
+    destruct r as [ps| |]; cbn [rres_bind]; [|sr|sr] end.
+  destruct (_ && _); [sr|].
+  destruct (Nat.ltb _ _); [sr|].
+  rewrite squash_exit_fst.
+  apply transact_sref; [exact Eo|apply frame_squash_closure].
+Qed.
+
 Theorem step_stack_ref_has_parent : forall lower_s w c,
   stack_ref_has_parent w -> stack_ref_has_parent (fst (step lower_s w c)).
 Proof.
@@ -366,6 +383,7 @@ Proof.
   - now apply run_log_clear_sref.
   - now apply run_edit_sref.
   - now apply run_rebase_sref.
+  - now apply run_squash_sref.
   - destruct (open_stack PAllow w) as [op|] eqn:Eo; [|exact H]. now apply (open_sref _ _ _ Eo).
   - now apply run_git_sref.
   - now apply run_git_sref.
